@@ -15,7 +15,16 @@ type Origin struct {
 	Who     string     // "OnRequest", "OnHost", "OnHeader", "OnBeforeUpgrade", "Negotiate(<name>)"
 	Status  int        // the status the response must carry (500 for a plain error)
 	Headers []HeaderKV // rejection headers the response must carry
+	Reject  bool       // the error is a ws.RejectConnectionError value ...
+	Chosen  int        // ... built with ws.RejectionStatus(Chosen); 0 = without: StatusCode() must report it
 }
+
+// StatusAsserted reports whether the property promises a response with
+// exactly this rejection status: every 3xx/4xx/5xx status a callback chose
+// (RejectionStatus documents "rejected with given HTTP status code"), except
+// 304, which HTTP defines as bodiless. Nothing is promised for a "rejection"
+// with an informational or success status or a number outside 100..599.
+func StatusAsserted(status int) bool { return status >= 300 && status <= 599 && status != 304 }
 
 // Built remembers the error values handed to the library, so that a returned
 // error can be traced back to the callback that made it (by identity).
@@ -41,6 +50,7 @@ func (b *Built) mkErr(who string, failKind bool, status int, reason string, hdr 
 	var o Origin
 	if failKind { // reject
 		opts := []ws.RejectOption{ws.RejectionReason(reason)}
+		chosen := status
 		if status != 0 {
 			opts = append(opts, ws.RejectionStatus(status))
 		} else {
@@ -54,10 +64,10 @@ func (b *Built) mkErr(who string, failKind bool, status int, reason string, hdr 
 			}
 		}
 		err = ws.RejectConnectionError(opts...)
-		o = Origin{who, status, hdr}
+		o = Origin{who, status, hdr, true, chosen}
 	} else {
 		err = errors.New(reason)
-		o = Origin{who, 500, nil}
+		o = Origin{Who: who, Status: 500}
 	}
 	b.errs = append(b.errs, err)
 	b.from = append(b.from, o)
